@@ -484,6 +484,15 @@ func (x *executor) verify(key string) (err error) {
 			return fmt.Errorf("%s: more than %d paths", key, x.maxPaths)
 		}
 	}
+	if x.c.usesBits {
+		x.note("int mode: single-bit operations with a symbolic bit index use the abstract functions bitof/setbit, axiomatised by facts of binary arithmetic (smt.go bitAxioms)")
+	}
+	if x.c.usesIx {
+		x.note("int mode: slice element offsets use ix(off,k) with the defining axiom ix(off,k) = off+k")
+	}
+	for ifc, conc := range x.fc.dispatch {
+		x.note("calls through interface " + ifc + " are devirtualised to " + conc + " (justified by a requires clause on the dynamic type)")
+	}
 	// unused loop contracts are anchoring errors
 	for _, lc := range x.fc.loops {
 		if !lc.used {
